@@ -111,13 +111,16 @@ RVPlain ==
    Num(R_2p63), Arr(<<Num(R_2p63), Num(R_2p63)>>), Arr(<<Num(R_i64max), Num(R_i64max)>>),
    Arr(<<Obj([a |-> Num(R_2p63)]), Obj([a |-> Num(R_2p63)])>>), Arr(<<Num(R_i64min), Num(R_i64min)>>),
    \* the last integer float32 holds exactly before its grid widens to 2, and 1/2 (bounds next to them below)
-   Num(R_2p24), Num(R_h), Arr(<<Num(R_2p24), Num(R_h)>>), Obj([a |-> Num(R_2p24)])}
+   Num(R_2p24), Num(R_h), Arr(<<Num(R_2p24), Num(R_h)>>), Obj([a |-> Num(R_2p24)]),
+   \* 1 + 2^-23: a single (and a double) whose exact decimal expansion is longer than its shortest round-trip text
+   Num(R_1eps32), Arr(<<Num(R_1eps32), Num(R_1eps32)>>), Arr(<<Num(R_1eps32), Num(R_1)>>)}
 RVReps(z) ==
   {PtrKids(x) : x \in UNION {RepsOf(v, {"float64", "int"}, {"any", "typed"}, {"any", "typed"}) : v \in {y \in RVPlain : y.t \in {"arr", "obj"}}}}
   \cup UNION {WithWraps(RepsOf(v, IF K >= 2 THEN NR1 ELSE {"float64", "int", "jsonNumberE", "jsonNumber", "uint64", "uint8"}, AR, OR),
                    IF v.t \in {"arr", "obj"} THEN {<<>>, <<"ptr">>} ELSE Wraps) : v \in RVPlain}
   \* single precision throughout (float32, []float32, map[string]float32 ...): only values float32 holds exactly
   \cup UNION {WithWraps(RepsOf(v, {"float32"}, AR, OR), {<<>>, <<"ptr">>}) : v \in RVPlain}
+  \cup RepsOf(Arr(<<Num(R_1eps32), Num(R_1eps32)>>), {"float32", "float64", "jsonNumber"}, {"any"}, {"any"})
 IntS == [type |-> "integer"]
 RVSchemas ==
   <<[type |-> "integer"], [type |-> "number"], [type |-> "string"], [type |-> "array"], [type |-> "object"], [type |-> "null"],
@@ -136,6 +139,7 @@ RVSchemas ==
     [items |-> [properties |-> [a |-> [const |-> Num(R_1)]]]], [items |-> [items |-> [type |-> "integer"]]],
     [not |-> [type |-> "number"]], [anyOf |-> <<[type |-> "string"], [minimum |-> R_2]>>],
     \* bounds that are doubles but not singles, one grid step from an instance that is both
+    [minimum |-> R_1eps32], [maximum |-> R_1eps32], [const |-> Num(R_1eps32)], [items |-> [enum |-> <<Num(R_1eps32), Str("a")>>]],
     [exclusiveMaximum |-> R_2p24p1], [minimum |-> R_2p24p1], [minimum |-> R_hEps], [exclusiveMinimum |-> R_h, maximum |-> R_hEps],
     [items |-> [exclusiveMaximum |-> R_2p24p1]], [properties |-> [a |-> [not |-> [minimum |-> R_2p24p1]]]],
     \* multipleOf beyond the domain of L0 (verdicts "x"): the replay takes the canonical decoding's verdict as the oracle
